@@ -445,7 +445,7 @@ def validate_skeleton_replay(ctx, inputs, impl):
 def run_check(ctx, prop, components, nontrivial, rule, quick_n=120, thorough_n=1500):
     ctx.cov["trusted_base"] = TRUSTED
     have_skel = regen_skeleton(ctx)
-    ctx.l1(extra=["Skeleton", "SkeletonRef", "SkeletonEvents"])
+    ctx.l1(extra=["Skeleton", "SkeletonRef", "SkeletonEvents", "SkeletonGuard"])
     have_skel = have_skel and skeleton_summary(ctx)
     r = run_engine(ctx, quick_n if ctx.quick else thorough_n)
     if r is None:
